@@ -547,6 +547,10 @@ impl Display for Literal {
             }
             Literal::Tuple(fields) => {
                 write!(f, "(")?;
+                // `(x)` is a parenthesized `x`, a tuple with one field is written `(x,)`
+                if let [only_field] = fields.as_slice() {
+                    return write!(f, "{only_field},)");
+                }
                 let mut fields = fields.iter();
                 if let Some(first_field) = fields.next() {
                     write!(f, "{first_field}")?;
